@@ -90,6 +90,8 @@ type FuncSpec struct {
 	Params   []string
 	Results  []string
 	Props    []string
+	SectionProps []string            // the properties of the section the contract stands in
+	ClauseProps  map[string][]string // clause label -> properties it serves (label written as [name@C01+C04])
 	Requires []Clause
 	Ensures  []Clause
 	OnSend   []SendClause // step contracts: must hold for every value sent on the named channel
@@ -327,6 +329,7 @@ func (ss *SpecSet) parseFile(file, pkg, src string) error {
 				return fail(sl.line, "%v", err)
 			}
 			fs.Pkg, fs.Props, fs.File, fs.Line = pkg, props, file, sl.line
+			fs.SectionProps = props
 			fs.Loops = map[int]*LoopSpec{}
 			fs.Asserts = map[string][]Clause{}
 			fs.Options = map[string]string{}
@@ -412,6 +415,19 @@ func (ss *SpecSet) parseFile(file, pkg, src string) error {
 					mode = tag
 				} else {
 					label = tag
+					if at := strings.Index(tag, "@"); at >= 0 && curF != nil {
+						// [name@C01+C04]: this clause serves other properties than the section it stands in
+						label = tag[:at]
+						if curF.ClauseProps == nil {
+							curF.ClauseProps = map[string][]string{}
+						}
+						for _, pp := range strings.Split(tag[at+1:], "+") {
+							curF.ClauseProps[label] = append(curF.ClauseProps[label], pp)
+							if !hasProp(curF.Props, pp) {
+								curF.Props = append(append([]string(nil), curF.Props...), pp)
+							}
+						}
+					}
 				}
 				r = strings.TrimSpace(r[cl+1:])
 			}
